@@ -1048,7 +1048,13 @@ func c18PerService(c *Ctx) {
 		okID := false
 		ast.Inspect(decl.Body, func(n ast.Node) bool {
 			if kv, ok := n.(*ast.KeyValueExpr); ok && types.ExprString(kv.Key) == "OperationId" {
-				okID = strings.Contains(types.ExprString(kv.Value), "method.Desc.Name()") && !strings.Contains(types.ExprString(kv.Value), "+")
+				val := kv.Value
+				if id, ok := ast.Unparen(val).(*ast.Ident); ok {
+					if d := localDef(c.P.DeclPkg[pm].TypesInfo, decl.Body, id); d != nil {
+						val = d // a local that holds the name
+					}
+				}
+				okID = strings.Contains(types.ExprString(val), "method.Desc.Name()") && !strings.Contains(types.ExprString(val), "+")
 			}
 			return true
 		})
@@ -1298,16 +1304,19 @@ func c18FileName(c *Ctx, rid string) {
 			minfo := c.P.DeclPkg[mfn].TypesInfo
 			var extObj types.Object
 			ast.Inspect(fnDecl.Body, func(n ast.Node) bool {
-				if x, ok := n.(*ast.CallExpr); ok {
-					if cal := Callee(minfo, x); cal != nil && cal.Name() == "Sprintf" && len(x.Args) == 3 {
-						if tv, ok := minfo.Types[x.Args[0]]; ok && tv.Value != nil && strings.Trim(tv.Value.ExactString(), `"`) == "%s.openapi.%s" &&
-							strings.Contains(types.ExprString(x.Args[1]), ".Desc.Name()") {
-							if id, ok := ast.Unparen(x.Args[2]).(*ast.Ident); ok {
-								okName = true
-								where = fnDecl
-								extObj = minfo.ObjectOf(id)
-							}
-						}
+				e, ok := n.(ast.Expr)
+				if !ok {
+					return true
+				}
+				// Sprintf("%s.openapi.%s", name, ext) or name + ".openapi." + ext: the same three parts
+				parts := concatParts(minfo, e)
+				if len(parts) == 3 && parts[1].konst == ".openapi." && parts[0].expr != nil && parts[2].expr != nil &&
+					strings.Contains(types.ExprString(parts[0].expr), ".Desc.Name()") {
+					if id, ok := ast.Unparen(parts[2].expr).(*ast.Ident); ok {
+						okName = true
+						where = fnDecl
+						extObj = minfo.ObjectOf(id)
+						return false
 					}
 				}
 				return true
@@ -1395,4 +1404,97 @@ func c18PathKeys(c *Ctx, rid string) {
 				fmt.Sprintf("the operation of a method with path %q under base path %q is filed under the paths key %q, which does not begin with a slash: the document is not a valid OpenAPI 3.1 description (and the key is not the route the servers register)", p, b, op))
 		}
 	}
+}
+
+type concatPart struct {
+	konst string
+	expr  ast.Expr
+}
+
+// concatParts splits a string-building expression into its constant and variable parts: a + b + c chains, string(x)
+// conversions and fmt.Sprintf with %s / %v verbs only. Adjacent constants are merged. nil when e is neither.
+func concatParts(info *types.Info, e ast.Expr) []concatPart {
+	var out []concatPart
+	add := func(p concatPart) {
+		if p.expr == nil && len(out) > 0 && out[len(out)-1].expr == nil {
+			out[len(out)-1].konst += p.konst
+			return
+		}
+		if p.expr == nil && p.konst == "" {
+			return
+		}
+		out = append(out, p)
+	}
+	var walk func(e ast.Expr) bool
+	walk = func(e ast.Expr) bool {
+		e = ast.Unparen(e)
+		if tv, ok := info.Types[e]; ok && tv.Value != nil && tv.Value.Kind() == constant.String {
+			add(concatPart{konst: constant.StringVal(tv.Value)})
+			return true
+		}
+		switch x := e.(type) {
+		case *ast.BinaryExpr:
+			if x.Op == token.ADD {
+				return walk(x.X) && walk(x.Y)
+			}
+		case *ast.CallExpr:
+			if tv, ok := info.Types[x.Fun]; ok && tv.IsType() && len(x.Args) == 1 {
+				if b, ok := tv.Type.Underlying().(*types.Basic); ok && b.Info()&types.IsString != 0 {
+					add(concatPart{expr: x.Args[0]})
+					return true
+				}
+			}
+			if cal := Callee(info, x); cal != nil && cal.Pkg() != nil && cal.Pkg().Path() == "fmt" && cal.Name() == "Sprintf" && len(x.Args) >= 1 {
+				tv, ok := info.Types[x.Args[0]]
+				if !ok || tv.Value == nil || tv.Value.Kind() != constant.String {
+					return false
+				}
+				f := constant.StringVal(tv.Value)
+				arg := 1
+				for len(f) > 0 {
+					i := strings.IndexByte(f, '%')
+					if i < 0 {
+						add(concatPart{konst: f})
+						break
+					}
+					add(concatPart{konst: f[:i]})
+					if i+1 >= len(f) {
+						return false
+					}
+					switch f[i+1] {
+					case 's', 'v':
+						if arg >= len(x.Args) {
+							return false
+						}
+						add(concatPart{expr: x.Args[arg]})
+						arg++
+					case '%':
+						add(concatPart{konst: "%"})
+					default:
+						return false
+					}
+					f = f[i+2:]
+				}
+				return arg == len(x.Args)
+			}
+		}
+		add(concatPart{expr: e})
+		return true
+	}
+	switch x := ast.Unparen(e).(type) {
+	case *ast.BinaryExpr:
+		if x.Op != token.ADD {
+			return nil
+		}
+	case *ast.CallExpr:
+		if cal := Callee(info, x); cal == nil || cal.Name() != "Sprintf" {
+			return nil
+		}
+	default:
+		return nil
+	}
+	if !walk(e) {
+		return nil
+	}
+	return out
 }
